@@ -30,7 +30,7 @@ Inputs == IF Kinds \cap {"tree", "treem"} # {} THEN {s \in Strs(MaxLen) : BalFro
 (* "W" for a four-byte one                                                *)
 (* "G" = e + combining acute (3 bytes), "U" = a flag of two regional indicators (8 bytes): one grapheme cluster each *)
 Width(kind, t) == IF kind \in {"str", "graph", "static", "staticc"}
-                  THEN (CASE t \in {"E", "Z"} -> 2 [] t = "W" -> 4 [] t = "X" -> 2 [] t \in {"L", "P", "G"} -> 3 [] t = "U" -> (IF kind = "graph" THEN 8 ELSE 3)
+                  THEN (CASE t \in {"E", "Z", "H", "M"} -> 2 [] t = "W" -> 4 [] t = "X" -> 2 [] t \in {"L", "P", "G", "I", "K"} -> 3 [] t = "U" -> (IF kind = "graph" THEN 8 ELSE 3)
                         [] t = "D" -> (IF kind = "graph" THEN 2 ELSE 3) [] OTHER -> 1) ELSE 1
 RECURSIVE OffsFrom(_, _, _)
 OffsFrom(kind, s, o) == IF s = <<>> THEN <<o>> ELSE <<o>> \o OffsFrom(kind, Tail(s), o + Width(kind, Head(s)))
